@@ -196,6 +196,7 @@ func main() {
 	flag.BoolVar(&evalDisabled, "noeval", false, "development aid: do not evaluate compiled code (goeval.go), pattern generators only")
 	flag.BoolVar(&evalOnly, "evalonly", false, "development aid: ignore the pattern route wherever a table can be evaluated (goeval.go)")
 	flag.Parse()
+	prevTablesPath = *out // coqbool.go: the spelling of an unchanged value is kept
 	if *jsonOut != "" {
 		evalCachePath = filepath.Join(filepath.Dir(*jsonOut), "tablegen-eval-cache.json")
 	}
